@@ -41,12 +41,25 @@ def kernel_jobs(run, quick, variant="fixed", maxlen=None):
         lens = [n for n in f["lens"] if maxlen is None or n <= maxlen]
         if not lens:
             continue
-        cfg = run.path("MC_FftKernels_%d.cfg" % i)
-        open(cfg, "w").write('CONSTANTS P = %d G = %d N = %d Lens = {%s} Variant = "%s"\nSPECIFICATION Spec\n'
-                             'INVARIANT KernelsEqualDft\nCHECK_DEADLOCK FALSE\n'
-                             % (f["P"], f["G"], f["N"], ", ".join(map(str, lens)), variant))
-        jobs.append((lambda cfg=cfg: core.tlc("MC_FftKernels.tla", cfg, workers=2, timeout=3400, heap="6g"),
-                     "MC_FftKernels field N=%d P=%d lengths %s" % (f["N"], f["P"], lens)))
+        # one TLC process per handful of lengths (all initial states and all successors of a state are evaluated by one
+        # worker, so sharding over processes is what parallelises); the longest lengths get a process of their own
+        lens = sorted(lens)
+        chunks, cur, cost = [], [], 0
+        for n in lens:
+            cur.append(n)
+            cost += n * n
+            if cost >= 6000 or len(cur) >= 8:
+                chunks.append(cur)
+                cur, cost = [], 0
+        if cur:
+            chunks.append(cur)
+        for j, ch in enumerate(chunks):
+            cfg = run.path("MC_FftKernels_%d_%d.cfg" % (i, j))
+            open(cfg, "w").write('CONSTANTS P = %d G = %d N = %d Lens = {%s} Variant = "%s"\nSPECIFICATION Spec\n'
+                                 'INVARIANT KernelsEqualDft\nCHECK_DEADLOCK FALSE\n'
+                                 % (f["P"], f["G"], f["N"], ", ".join(map(str, ch)), variant))
+            jobs.append((lambda cfg=cfg: core.tlc("MC_FftKernels.tla", cfg, workers=1, timeout=6000, heap="4g"),
+                         "MC_FftKernels field N=%d P=%d lengths %s" % (f["N"], f["P"], ch)))
     return jobs
 
 
